@@ -449,12 +449,19 @@ fn runtime_case(
         r
     };
     let limit = Duration::from_millis(limit_ms);
-    let slack = Duration::from_millis(250);
-    // every scheduled check that was passed (search continued) must have happened before limit + slack
+    // every scheduled check that was passed (the search continued) must have seen less than the budget. the search takes
+    // its start time before its first loop-top event and makes the check after the loop-top event of that iteration, so
+    // (stamp of this loop top - stamp of the search's first loop top) is a LOWER bound of the elapsed time the check saw:
+    // machine load can only make the real figure larger. 1 ms margin for clock granularity
+    let slack = Duration::from_millis(1);
     let n = ctx.loop_times.len();
+    let mut base = Duration::ZERO;
     for (i, (it, t)) in ctx.loop_times.iter().enumerate() {
+        if *it == 0 {
+            base = *t;
+        }
         let continued = i + 1 < n; // another loop top followed within the same context
-        if it % f == 0 && continued && *t > limit + slack {
+        if it % f == 0 && continued && t.saturating_sub(base) > limit + slack {
             // the loop top that follows belongs to the same search only if iterations increased
             if ctx.loop_times[i + 1].0 == it + 1 {
                 rep.violate(&format!("C10|runtime|{fam}|scheduled-check-passed-after-budget"), format!("L3 the check at iteration {it} ({:?} after start) let the search continue with a budget of {limit_ms} ms", t), replay);
@@ -680,7 +687,7 @@ pub fn run(tier: Tier, seed: u64) -> MonOut {
         rule: "generated networks x plain searches (Dijkstra / A* any weight factor, forward/reverse, with/without destination) and k-shortest-path searches (each sub-search observed separately); per query an unlimited reference run, then sweeps of the iteration limit 0..need+3 and of the solution-size limit 0..tree+3 (all values when small, else ends + random interior), random combined limits, a zero runtime budget at check frequencies 1,2,3,7 and a 10..30 ms budget expiring mid-search (traversal model sleeping 1..2 ms per edge, frequency 1..7). observed through LoopTop/Pop/SearchEnd hook events (the error path exposes no counters). application-level slice: per generated world one unlimited application and seven limited ones ([termination] iterations x4 around the need, solution_size, combined, query_runtime 0 with frequency 1..3), the same six queries through each; a limited response is either the unlimited route or a 'terminated' error naming the configured limit, never another error, and success is monotone in the iteration limit. non-trivial = the unlimited search needs >= 3 expansions; distinct by (network, algorithm, od, direction) resp. (runtime setting, terminating iteration)".into(),
         assumptions: vec![
             "an 'expansion step' is a popped vertex; the tree is sampled at every loop top and at return".into(),
-            "runtime verdicts are one-sided so that machine load cannot cause alarms: a stop must be on schedule and not before the budget (harness clock starts before the search's own), and a scheduled check may not be passed later than budget + 250 ms".into(),
+            "runtime verdicts are one-sided so that machine load cannot cause alarms: a stop must be on schedule and the call may not return before the budget (harness clock starts before the search's own), and a scheduled check may not be passed when more than the budget lies between the search's first loop-top stamp and this one (a lower bound of what the check saw)".into(),
             "identity with the unlimited result is exact (edge sequences and tree entries); the search is deterministic for a fixed instance".into(),
         ],
         floor: 200,
